@@ -129,9 +129,23 @@ func c20Workspaces(thorough bool) [][]qnode {
 	return out
 }
 
+// c20Tags: node i carries none, "ta", "tb" or both (by position), so that every combination of the --tag /
+// --exclude-tag filters separates some pair of targets.
+func c20Tags(i int) []string {
+	switch i % 4 {
+	case 1:
+		return []string{"ta"}
+	case 2:
+		return []string{"tb"}
+	case 3:
+		return []string{"ta", "tb"}
+	}
+	return nil
+}
+
 func c20Source(ns []qnode) *hist.Source {
 	s := &hist.Source{Files: map[string]hist.File{}}
-	for _, n := range ns {
+	for ni, n := range ns {
 		if n.alias {
 			s.Aliases = append(s.Aliases, hist.Alias{Pkg: n.pkg, Name: n.name, Actual: ns[n.deps[0]].label})
 			continue
@@ -148,7 +162,7 @@ func c20Source(ns []qnode) *hist.Source {
 				}
 			}
 		}
-		s.Targets = append(s.Targets, hist.Target{Pkg: n.pkg, Name: n.name, Command: traceStart, Inputs: n.inputs, Deps: deps})
+		s.Targets = append(s.Targets, hist.Target{Pkg: n.pkg, Name: n.name, Command: traceStart, Inputs: n.inputs, Deps: deps, Tags: c20Tags(ni)})
 		for _, in := range n.inputs {
 			if strings.Contains(in, "*") {
 				s.Files[n.pkg+"/sub/g1.txt"] = hist.File{Content: "g1"}
@@ -169,7 +183,7 @@ func c20Source(ns []qnode) *hist.Source {
 
 func init() {
 	Registry["C20"] = func(c *Ctx) {
-		c.R.Rule = "every workspace of a family (4 targets in two packages, every subset of the 6 possible lower->higher dependency edges = all DAG shapes incl. diamonds, plus variants in which one edge goes through an alias; one target is a test target) is materialised on disk and queried with the REAL binary: grog deps / deps -t / rdeps / rdeps -t for every node, --target-type=test|no_test, grog owners for every input file (incl. a file shared by two targets, glob-resolved files, a same-named file in another package and an unowned file), grog list for 8 pattern forms. Printed label sets must equal reference reachability sets, each label printed once, deps* and rdeps* must be mutual inverses. Second part: every single-file edit of the C01 model workspace followed by a build started in each directory of the workspace in turn: executed targets ⊆ owners(f) ∪ rdeps*(owners(f)) as printed by the binary itself. Non-trivial = a query whose expected answer is non-empty. Variants in which every target declares its first dependency twice (second time spelled relatively): still each label once. One target name exists in two packages (a target may depend on both). A workspace in which an unrelated target has two outputs of very different size: editing another target's input must not re-execute it (3 rounds). Nested package: a package below another package whose target's glob reaches into it: owners of a file there names both targets, and an edit re-executes only owners and their rdeps."
+		c.R.Rule = "every workspace of a family (4 targets in two packages, every subset of the 6 possible lower->higher dependency edges = all DAG shapes incl. diamonds, plus variants in which one edge goes through an alias; one target is a test target) is materialised on disk and queried with the REAL binary: grog deps / deps -t / rdeps / rdeps -t for every node, --target-type=test|no_test, grog owners for every input file (incl. a file shared by two targets, glob-resolved files, a same-named file in another package and an unowned file), grog list for 8 pattern forms. Printed label sets must equal reference reachability sets, each label printed once, deps* and rdeps* must be mutual inverses. Second part: every single-file edit of the C01 model workspace followed by a build started in each directory of the workspace in turn: executed targets ⊆ owners(f) ∪ rdeps*(owners(f)) as printed by the binary itself. Non-trivial = a query whose expected answer is non-empty. Variants in which every target declares its first dependency twice (second time spelled relatively): still each label once. One target name exists in two packages (a target may depend on both). A workspace in which an unrelated target has two outputs of very different size: editing another target's input must not re-execute it (3 rounds). Nested package: a package below another package whose target's glob reaches into it: owners of a file there names both targets, and an edit re-executes only owners and their rdeps. Targets carry the tags none / ta / tb / both by position: grog list //... and deps -t of the top node under 10 combinations of --tag / --exclude-tag (one tag, two tags in both flag orders and the comma form, an unknown tag, excludes, include+exclude) print exactly the targets carrying any included and no excluded tag."
 		c.R.Assume("edit part: regular input files only; a file that is an input only through a symbolic link is not an input file by its own path and is left out (symlinked inputs are covered by C01)", "stdout lines starting with // are the answer of a query command", "with --target-type other than all only target labels are compared (alias nodes are not typed)")
 		grog, err := vc.BuildGrog("grog", nil)
 		if err != nil {
@@ -398,6 +412,48 @@ func c20Workspace(c *Ctx, grog, base string, wi int, ns []qnode) int64 {
 		}
 	}
 	check("list --target-type", []string{"list", "--target-type=test", "//..."}, "", testOnly, true)
+	// tag filters (documented: several --tag values select targets carrying ANY of them; --exclude-tag removes targets
+	// carrying any of the excluded ones), in both flag orders and in the comma form, for list and for deps -t of the top node
+	hasAny := func(i int, tags []string) bool {
+		for _, t := range c20Tags(i) {
+			for _, w := range tags {
+				if t == w {
+					return true
+				}
+			}
+		}
+		return false
+	}
+	filterTags := func(m map[string]bool, inc, exc []string) map[string]bool {
+		out := map[string]bool{}
+		for i := range ns {
+			if m[ns[i].label] && !ns[i].alias && (len(inc) == 0 || hasAny(i, inc)) && !hasAny(i, exc) {
+				out[ns[i].label] = true
+			}
+		}
+		return out
+	}
+	top := len(ns) - 1
+	for _, tf := range []struct {
+		args     []string
+		inc, exc []string
+	}{
+		{[]string{"--tag=ta"}, []string{"ta"}, nil},
+		{[]string{"--tag=tb"}, []string{"tb"}, nil},
+		{[]string{"--tag=ta", "--tag=tb"}, []string{"ta", "tb"}, nil},
+		{[]string{"--tag=tb", "--tag=ta"}, []string{"ta", "tb"}, nil},
+		{[]string{"--tag=ta,tb"}, []string{"ta", "tb"}, nil},
+		{[]string{"--tag=tb", "--tag=nosuch"}, []string{"tb"}, nil},
+		{[]string{"--exclude-tag=ta"}, nil, []string{"ta"}},
+		{[]string{"--exclude-tag=ta", "--exclude-tag=tb"}, nil, []string{"ta", "tb"}},
+		{[]string{"--exclude-tag=tb", "--exclude-tag=ta"}, nil, []string{"ta", "tb"}},
+		{[]string{"--tag=ta", "--exclude-tag=tb"}, []string{"ta"}, []string{"tb"}},
+	} {
+		check("list --tag", append(append([]string{"list"}, tf.args...), "//..."), "", filterTags(all, tf.inc, tf.exc), true)
+		if len(tf.args) > 1 {
+			check("deps -t --tag", append(append([]string{"deps", "-t"}, tf.args...), ns[top].label), "", filterTags(deps(top, true), tf.inc, tf.exc), true)
+		}
+	}
 	// mutual inverse (from the reference sets that the printed sets were compared with)
 	for x, ds := range depsStar {
 		for y := range ds {
